@@ -25,7 +25,7 @@ use cardinalsin::compactor::{Compactor, CompactorConfig};
 use cardinalsin::ingester::ChunkMetadata;
 use cardinalsin::metadata::{
     CompactionLeases, LeaseStatus, LocalMetadataClient, MetadataCatalog, MetadataClient,
-    ObjectStoreMetadataClient, ObjectStoreMetadataConfig,
+    ObjectStoreMetadataClient, ObjectStoreMetadataConfig, TimeRange,
 };
 use cardinalsin::sharding::{HotShardConfig, ShardMonitor};
 use cardinalsin::StorageConfig;
@@ -87,6 +87,9 @@ struct Plan {
     raw: bool,
     /// fault at the n-th complete_compaction request (the swap itself): (n, 1 before | 2 after)
     fault_swap: Option<(usize, u8)>,
+    /// row id r carries the timestamp T0 + r microseconds; T0 = this many hours before the current hour
+    /// (sparse datasets reach weeks back, always inside the 90-day retention window)
+    t0_hours: i64,
 }
 
 impl Plan {
@@ -101,7 +104,7 @@ impl Plan {
             "fault": self.fault.map(|(i, k)| json!([i, k])), "crash": self.crash,
             "tick": self.tick.map(|(i, d)| json!([i, d])), "renew": self.renew,
             "tail_renewals": self.tail_renewals, "raw": self.raw,
-            "fault_swap": self.fault_swap.map(|(i, k)| json!([i, k])),
+            "fault_swap": self.fault_swap.map(|(i, k)| json!([i, k])), "t0_hours": self.t0_hours,
         })
     }
     fn from_json(v: &Value) -> Plan {
@@ -132,14 +135,15 @@ impl Plan {
             tail_renewals: u("tail_renewals") as usize,
             raw: v["raw"].as_bool().unwrap_or(false),
             fault_swap: pair("fault_swap").map(|(i, k)| (i as usize, k as u8)),
+            t0_hours: v["t0_hours"].as_i64().unwrap_or(8),
         }
     }
 }
 
 // --------------------------------------------------------------- parquet --
-fn t0() -> i64 {
+fn t0(hours_back: i64) -> i64 {
     let now = chrono::Utc::now().timestamp_nanos_opt().unwrap();
-    (now / H_NS) * H_NS - 8 * H_NS
+    (now / H_NS) * H_NS - hours_back.max(8) * H_NS
 }
 
 fn make_chunk(rows: &[u64], base: i64) -> (Bytes, i64, i64) {
@@ -210,6 +214,8 @@ struct Env {
     next_path: u64,
     lease_ids: HashMap<String, u64>,
     next_lease: u64,
+    /// objects are write-once: decoded rows per path (with the object's length as a guard)
+    decoded: std::sync::Mutex<HashMap<String, (usize, Option<Vec<u64>>)>>,
 }
 
 fn s3cfg() -> ObjectStoreMetadataConfig {
@@ -270,7 +276,18 @@ impl Env {
         }
         for (path, lv) in entries {
             let rows = match self.raw.get(&Path::from(path.clone())).await {
-                Ok(r) => decode_rows(r.bytes().await.unwrap()),
+                Ok(r) => {
+                    let b = r.bytes().await.unwrap();
+                    let hit = self.decoded.lock().unwrap().get(&path).filter(|(n, _)| *n == b.len()).map(|(_, v)| v.clone());
+                    match hit {
+                        Some(v) => v,
+                        None => {
+                            let v = decode_rows(b.clone());
+                            self.decoded.lock().unwrap().insert(path.clone(), (b.len(), v.clone()));
+                            v
+                        }
+                    }
+                }
                 Err(_) => None,
             };
             cat.insert(path, (lv, rows));
@@ -461,20 +478,25 @@ async fn run_plan(plan: &Plan) -> RunOut {
         next_path: 1,
         lease_ids: HashMap::new(),
         next_lease: 1,
+        decoded: std::sync::Mutex::new(HashMap::new()),
     };
     env.shared.next_pseudo.store(32, Ordering::SeqCst);
 
     // ---- dataset -------------------------------------------------------
-    let base = t0();
+    let base = t0(plan.t0_hours);
     let setup: Arc<dyn MetadataClient> = match &env.local {
         Some(l) => l.clone(),
         None => Arc::new(ObjectStoreMetadataClient::new(raw.clone() as Arc<dyn ObjectStore>, s3cfg())),
     };
     let mut chunk_toks = Vec::new();
+    let mut row_info: Vec<(u64, i64, i64, i64)> = Vec::new();
     for (i, c) in plan.chunks.iter().enumerate() {
         let path = format!("default/data/chunk_{:03}.parquet", i + 1);
         let id = env.pid(&path);
         let (bytes, mn, mx) = make_chunk(&c.rows, base);
+        for r in &c.rows {
+            row_info.push((*r, base + (*r as i64) * 1000, mn, mx));
+        }
         raw.put(&Path::from(path.clone()), bytes.into()).await.unwrap();
         let meta = ChunkMetadata { path: path.clone(), min_timestamp: mn, max_timestamp: mx, row_count: c.rows.len() as u64, size_bytes: c.size };
         setup.register_chunk(&path, &meta).await.unwrap();
@@ -718,7 +740,12 @@ async fn run_plan(plan: &Plan) -> RunOut {
         let levels_before: BTreeMap<String, u32> = prev.cat.iter().map(|(p, (l, _))| (p.clone(), *l)).collect();
         let log_before = hub.log.lock().unwrap().len();
         ctl.step(client, action).await;
+        let cycles_before = out.cycle_results.len();
         let cycle_err = drain(&mut ctl, &mut incs[pick], &mut out).await;
+        if out.cycle_results.len() > cycles_before {
+            let at = format!("after cycle {}", out.cycle_results.len());
+            range_oracle(&env, &row_info, &mut out, &at).await;
+        }
 
         if meta_sub && action != Action::Proceed && rec.is_some() {
             // which kind of fault the running metadata operation suffered
@@ -896,6 +923,7 @@ async fn run_plan(plan: &Plan) -> RunOut {
         let q = out.quiescent_end;
         check_oracle(&initial, &o, q, &mut out, "final catalog");
         prev = o;
+        range_oracle(&env, &row_info, &mut out, "final catalog").await;
     }
     // K4 probe: do renewal tasks outlive the cycles they were started in?
     for _ in 0..plan.tail_renewals {
@@ -939,6 +967,38 @@ async fn renewal_round(env: &mut Env, ctl: &mut Controller, incs: &[Incarnation]
         out.tokens.push(format!("12:{}:{}@{}", lid, if ok { 0 } else { 2 }, env.show(&o)));
         check_levels(&o, out, "after a lease renewal");
         *prev = o;
+    }
+}
+
+/// second reachability oracle: what a query does — `get_chunks(TimeRange)` through a fresh reader — must
+/// lead to every initial row, for a narrow window around the row's own timestamp and for the window of
+/// the chunk it originally lived in
+async fn range_oracle(env: &Env, rows: &[(u64, i64, i64, i64)], out: &mut RunOut, at: &str) {
+    let o = env.observe().await;
+    let reader: Arc<dyn MetadataClient> = match &env.local {
+        Some(l) => l.clone(),
+        None => Arc::new(ObjectStoreMetadataClient::new(env.raw.clone() as Arc<dyn ObjectStore>, s3cfg())),
+    };
+    let mut memo: HashMap<(i64, i64), Option<Vec<String>>> = HashMap::new();
+    for (r, ts, mn, mx) in rows {
+        for (a, b, what) in [(*ts - 1000, *ts + 1000, "a narrow window around its timestamp"), (*mn, *mx, "the time range of its original chunk")] {
+            if !memo.contains_key(&(a, b)) {
+                let v = reader.get_chunks(TimeRange::new(a, b)).await.ok().map(|es| es.into_iter().map(|e| e.chunk_path).collect());
+                memo.insert((a, b), v);
+            }
+            let Some(paths) = memo.get(&(a, b)).unwrap() else {
+                out.oracle.push(format!("UNQUERYABLE: get_chunks fails for {} of row {} ({})", what, r, at));
+                return;
+            };
+            let found = paths.iter().any(|p| o.cat.get(p).and_then(|(_, rows)| rows.as_ref()).map(|v| v.contains(r)).unwrap_or(false));
+            if !found {
+                out.oracle.push(format!(
+                    "UNQUERYABLE: row {} is not reachable through get_chunks for {} although it was before compaction ({}; {} chunks returned)",
+                    r, what, at, paths.len()
+                ));
+                return;
+            }
+        }
     }
 }
 
@@ -1066,6 +1126,7 @@ fn gen_plan(rng: &mut Rng, thorough: bool) -> Plan {
         tail_renewals: 0,
         raw: !local && rng.chance(1, 2),
         fault_swap: None,
+        t0_hours: 8,
     }
 }
 
@@ -1074,7 +1135,7 @@ fn corpus() -> Vec<(&'static str, Plan)> {
     let base = Plan {
         local: true, threshold: 2, l1_target: 100_000, l2_target: 100_000, max_levels: 2, grace_secs: 300,
         chunks: vec![c(0, &[1, 2]), c(0, &[3, 4]), c(0, &[6, 5])], ncomp: 1, cycles: 1, restart_cycles: 1,
-        sched_seed: 1, policy: 1, script: vec![], fault: None, crash: None, tick: None, renew: None, tail_renewals: 0, raw: false, fault_swap: None,
+        sched_seed: 1, policy: 1, script: vec![], fault: None, crash: None, tick: None, renew: None, tail_renewals: 0, raw: false, fault_swap: None, t0_hours: 8,
     };
     let mut v = Vec::new();
     // the case of the fixed finding 4d073e9: three L0 chunks in one hour, one cycle
@@ -1134,6 +1195,38 @@ fn corpus() -> Vec<(&'static str, Plan)> {
     for (name, local) in [("swap-fail-after-l2-local", true), ("swap-fail-after-l2-s3", false)] {
         v.push((name, Plan { local, chunks: vec![c(2, &[1, 2]), c(2, &[3]), c(0, &[4])], l1_target: 100_000, l2_target: 150, max_levels: 3, threshold: 3, fault: Some((6, 2)), cycles: 3, ..base.clone() }));
     }
+    // large groups: one-row L0 chunks in one hour bucket (more files than any fan-in limit one might add),
+    // and wide groups above level 0 (many small chunks below the target size)
+    for n in [33u64, 40, 64, 100] {
+        for (tag, local) in [("local", true), ("s3", false)] {
+            let chunks: Vec<ChunkSpec> = (1..=n).map(|i| ChunkSpec { level: 0, rows: vec![i], size: 10 }).collect();
+            let name: &'static str = Box::leak(format!("large-l0-group-{}-{}", n, tag).into_boxed_str());
+            v.push((name, Plan { local, chunks, threshold: 10, grace_secs: if n % 2 == 1 || n == 64 { 0 } else { 300 }, cycles: 1, ..base.clone() }));
+        }
+    }
+    for (tag, local) in [("local", true), ("s3", false)] {
+        let chunks: Vec<ChunkSpec> = (1..=40u64).map(|i| ChunkSpec { level: 1, rows: vec![i], size: 10 }).collect();
+        let name: &'static str = Box::leak(format!("wide-l1-group-40-{}", tag).into_boxed_str());
+        v.push((name, Plan { local, chunks, l1_target: 400, threshold: 3, grace_secs: 0, cycles: 1, ..base.clone() }));
+        let chunks: Vec<ChunkSpec> = (1..=36u64).map(|i| ChunkSpec { level: 2, rows: vec![i], size: 10 }).collect();
+        let name: &'static str = Box::leak(format!("wide-l2-group-36-{}", tag).into_boxed_str());
+        v.push((name, Plan { local, chunks, l2_target: 360, max_levels: 3, threshold: 3, cycles: 1, ..base.clone() }));
+    }
+    // sparse series: the merged chunk spans more than 7 / more than 30 days; every row must stay reachable
+    // through get_chunks(TimeRange), not only through list_chunks
+    let day = 24 * ROWS_PER_HOUR;
+    for (tag, local) in [("local", true), ("s3", false)] {
+        let sparse = |gap_days: u64, level: u32| -> Vec<ChunkSpec> {
+            (0..4u64).map(|k| ChunkSpec { level, rows: vec![k * gap_days * day + 2 * k + 1, k * gap_days * day + 2 * k + 2], size: 100 }).collect()
+        };
+        let name: &'static str = Box::leak(format!("sparse-9-days-l1-{}", tag).into_boxed_str());
+        v.push((name, Plan { local, chunks: sparse(3, 1), l1_target: 400, threshold: 3, cycles: 2, t0_hours: 24 * 20, ..base.clone() }));
+        let name: &'static str = Box::leak(format!("sparse-33-days-l1-{}", tag).into_boxed_str());
+        v.push((name, Plan { local, chunks: sparse(11, 1), l1_target: 400, threshold: 3, cycles: 2, t0_hours: 24 * 45, ..base.clone() }));
+        // four 2-row L0 chunks three days apart, threshold 1: L0 -> L1 one by one, then the higher levels merge them
+        let name: &'static str = Box::leak(format!("sparse-l0-threshold-1-{}", tag).into_boxed_str());
+        v.push((name, Plan { local, chunks: sparse(3, 0), threshold: 1, l1_target: 2000, l2_target: 2000, max_levels: 3, cycles: 4, t0_hours: 24 * 20, ..base.clone() }));
+    }
     // raw mode (object-store backend): every GET / conditional PUT of the metadata operations is a step of its own
     v.push(("raw-l0-merge-s3", Plan { local: false, raw: true, ..base.clone() }));
     v.push(("raw-two-compactors-alternating-s3", Plan { local: false, raw: true, ncomp: 2, policy: 2, chunks: vec![c(0, &[1, 2]), c(0, &[3, 4]), c(1, &[5]), c(1, &[6])], l1_target: 150, ..base.clone() }));
@@ -1173,7 +1266,7 @@ fn main() {
         let b = Plan {
             local: true, threshold: 2, l1_target: 150, l2_target: 100_000, max_levels: 2, grace_secs: 0,
             chunks: vec![c(0, &[1, 2]), c(0, &[4, 3]), c(1, &[5]), c(1, &[6, 7])], ncomp: 1, cycles: 2, restart_cycles: 1,
-            sched_seed: 7, policy: 1, script: vec![], fault: None, crash: None, tick: None, renew: None, tail_renewals: 0, raw: false, fault_swap: None,
+            sched_seed: 7, policy: 1, script: vec![], fault: None, crash: None, tick: None, renew: None, tail_renewals: 0, raw: false, fault_swap: None, t0_hours: 8,
         };
         let mut v = vec![b.clone(), Plan { local: false, ..b.clone() }, Plan { local: false, raw: true, cycles: 1, ..b.clone() }];
         if thorough {
@@ -1251,6 +1344,49 @@ fn main() {
     let mut per_class: BTreeMap<String, u32> = BTreeMap::new();
     let only = args.get("only").map(|s| s.to_string());
     let verbose = args.get("verbose").is_some();
+    // large / wide / sparse datasets, a few per run
+    for i in 0..(if thorough { 60 } else { 12 }) {
+        let mut p = gen_plan(&mut rng, thorough);
+        p.ncomp = 1 + (i % 3 == 2) as usize;
+        p.raw = false;
+        p.script = vec![];
+        p.tick = None;
+        let day = 24 * ROWS_PER_HOUR;
+        match i % 3 {
+            0 => {
+                let n = rng.range_usize(33, 80) as u64;
+                p.chunks = (1..=n).map(|k| ChunkSpec { level: 0, rows: vec![k], size: 10 }).collect();
+                p.threshold = rng.range_usize(2, 15);
+                p.cycles = 1;
+            }
+            1 => {
+                let n = rng.range_usize(20, 50) as u64;
+                let lv = rng.range_usize(1, 2) as u32;
+                p.chunks = (1..=n).map(|k| ChunkSpec { level: lv, rows: vec![k], size: 10 }).collect();
+                p.l1_target = (n * 10) as usize;
+                p.l2_target = (n * 10) as usize;
+                p.max_levels = 3;
+                p.cycles = 1;
+            }
+            _ => {
+                let gap = rng.range_usize(3, 12) as u64;
+                let n = rng.range_usize(4, 6) as u64;
+                let lv = rng.below(2) as u32;
+                p.chunks = (0..n).map(|k| ChunkSpec { level: lv, rows: vec![k * gap * day + 2 * k + 1, k * gap * day + 2 * k + 2], size: 100 }).collect();
+                p.t0_hours = (24 * (gap * n + 5)) as i64;
+                p.threshold = if lv == 0 { 1 } else { 3 };
+                p.l1_target = if lv == 0 { 2000 } else { (n * 100) as usize };
+                p.l2_target = 2000;
+                p.max_levels = 3;
+                p.cycles = 3;
+            }
+        }
+        if rng.chance(1, 3) {
+            p.fault = Some((rng.below(40) as usize, 1 + rng.below(2) as u8));
+        }
+        plans.push((format!("special:{}", i), p));
+    }
+
     for (name, plan) in plans.iter() {
         if let Some(o) = &only {
             if !name.contains(o.as_str()) {
